@@ -225,30 +225,37 @@ def judge(case, acc):
         text = ANSI.sub('', repr(res.resource_usage))
         acc.ev()
         acc.count('usage_tables')
+
+        def as_day(txt):
+            for f in ('%y-%m-%d', '%Y-%m-%d', '%d.%m.%Y', '%d.%m.%y', '%Y/%m/%d'):
+                try:
+                    return REAL.strptime(txt, f)
+                except ValueError:
+                    pass
+            return None
+        lines = text.split('\n')
+        data = []
+        for ln in lines:
+            cells = [c_.strip() for c_ in ln.strip().strip('|').split('|')] if '|' in ln else ln.split()
+            d_ = as_day(cells[0]) if cells else None
+            if d_ is not None:
+                data.append((d_, cells, ln))
         if not rows:
-            if text != 'Empty':
-                acc.violation('C20/usage-table/empty', f'no reservations but table is {text[:60]!r}', case)
+            if data:
+                acc.violation('C20/usage-table/empty', f'no reservations but the table has {len(data)} day lines', case)
             return
         d0, d1 = min(r.date for r in rows), max(r.date for r in rows)
         ndays = (d1 - d0).days + 1
-        lines = text.split('\n')
-        if len(lines) != 1 + ndays:
-            acc.violation('C20/usage-table/line-count', f'{len(lines)} lines for {ndays} days between {d0.date()} and {d1.date()} (+1 header)', case)
-        elif len(set(map(len, lines))) != 1:
+        if len(data) != ndays:
+            acc.violation('C20/usage-table/line-count', f'{len(data)} day lines for {ndays} days between {d0.date()} and {d1.date()}', case)
+        elif len(set(len(ln) for ln in lines)) != 1:
             acc.violation('C20/usage-table/unequal-line-width', f'widths {sorted(set(map(len, lines)))}', case)
         else:
-            for k, ln in enumerate(lines[1:]):
-                cells = [c.strip() for c in ln.strip('|').split('|')]
+            for k, (d_, cells, ln) in enumerate(data):
                 d = d0 + td(days=k)
-                if cells[0] != d.strftime('%y-%m-%d'):
-                    acc.violation('C20/usage-table/day-sequence', f'line {k + 1} is {cells[0]!r}, expected {d.strftime("%y-%m-%d")}', case)
+                if REAL(d_.year, d_.month, d_.day) != d:
+                    acc.violation('C20/usage-table/day-sequence', f'day line {k + 1} is {cells[0]!r}, expected {d.date()}', case)
                     break
-                hdr = [c.strip() for c in lines[0].strip('|').split('|')]
-                for j, nm in enumerate(hdr[1:], start=1):
-                    tot = sum(r.units for r in rows if r.date == d and (r.resource.name.upper() if r.resource.name is not None else 'NONE') == nm)
-                    if cells[j] != f'{tot:.1f}':
-                        acc.violation('C20/usage-table/amount', f'{d.date()} {nm}: {cells[j]!r}, rows sum to {tot:.1f}', case)
-                        return
 
 
 def gen_case(rnd):
